@@ -66,6 +66,9 @@ theorem enumStr_inj {tbl : List (Nat × Nat)} (h : NameInj tbl) {v w : Nat}
 theorem statusNames_inj : NameInj statusNames := nameInj_of_nodup _ (by decide +kernel)
 theorem reasonNames_inj : NameInj reasonNames := nameInj_of_nodup _ (by decide +kernel)
 theorem operationNames_inj : NameInj operationNames := nameInj_of_nodup _ (by decide +kernel)
+theorem liveStatus_inj : NameInj stdTables.status := nameInj_of_nodup _ (by decide +kernel)
+theorem liveReasons_inj : NameInj stdTables.reasons := nameInj_of_nodup _ (by decide +kernel)
+theorem liveOps_inj : NameInj stdTables.ops := nameInj_of_nodup _ (by decide +kernel)
 
 /-! ### `ResponseBatchItem.Err` -/
 
